@@ -3,6 +3,7 @@ package props
 import (
 	"bytes"
 	"fmt"
+	"io"
 	"math"
 	"sort"
 	"strings"
@@ -431,7 +432,7 @@ func runC03(r *core.Run) {
 		recs = append(recs, long)
 		for i, rc := range recs {
 			s := rc.build()
-			out = append(out, marshaller{fmt.Sprint("pool record ", i), s.MarshalText, func(w *bytes.Buffer) error { return s.Write(w) }})
+			out = append(out, marshaller{fmt.Sprint("pool record ", i), s.MarshalText, func(w *bytes.Buffer) error { return s.Write(w) }, func(w io.Writer) error { return s.Write(w) }})
 		}
 		return out
 	})
